@@ -1687,9 +1687,10 @@ func TestVerifReplay(t *testing.T) {
 		}
 		if len(prog) > 0 && rpnDepth(prog, len(prog)) != 1 { t.Errorf("%q: the compiled program leaves %d values (A6)", expr, rpnDepth(prog, len(prog))); bad++ }
 		before := snapshot(c)
-		for _, ops := range managers {
+		first := map[string]string{}
+		for mi, ops := range managers {
 			c.SetVariantOperations(ops)
-			for _, mk := range varSets() {
+			for si, mk := range varSets() {
 				vars := mk()
 				var vb []string
 				for _, v := range vars.GetAll() { vb = append(vb, v.Value().String()) }
@@ -1697,7 +1698,17 @@ func TestVerifReplay(t *testing.T) {
 				r2, ok2 := evalOnce(t, expr, c, vars)
 				if !ok1 || !ok2 { bad++; continue }
 				if r1 != r2 { t.Errorf("%q: evaluated twice with equal inputs: %s then %s (C19)", expr, r1, r2); bad++ }
+				first[fmt.Sprint(mi, si)] = r1
 				for i, v := range vars.GetAll() { if v.Value().String() != vb[i] { t.Errorf("%q: evaluation changed variable %s from %s to %s (C19)", expr, v.Name(), vb[i], v.Value().String()); bad++ } }
+			}
+		}
+		// the same inputs again, after evaluations under the other variable sets and managers (some of which failed)
+		for mi, ops := range managers {
+			c.SetVariantOperations(ops)
+			for si, mk := range varSets() {
+				if r, ok := evalOnce(t, expr, c, mk()); ok && r != first[fmt.Sprint(mi, si)] {
+					t.Errorf("%q: %s at first, %s after evaluations under other variable sets (C19)", expr, first[fmt.Sprint(mi, si)], r); bad++
+				}
 			}
 		}
 		if !sameSnap(before, snapshot(c)) { t.Errorf("%q: evaluation changed the compiled program (C19)", expr); bad++ }
